@@ -41,7 +41,8 @@ CONSTANTS
   MaxBurst,       \* requests a client may have written but the proxy not yet read
   CanonKinds,     \* TRUE: nodes use "mix"/"nil" only where they differ from "ok" (model checking); FALSE: any (traces)
   PoolAny,        \* TRUE: MsgPool.Get may return any pooled object; FALSE: a canonical one (trace validation)
-  MaxPause        \* how many times a client may stop reading (0: clients always read)
+  MaxPause,       \* how many times a client may stop reading (0: clients always read)
+  MaxDown         \* how many times a node may go off the network (connections die, new ones are refused)
 
 VARIABLES
   nsent,    \* [client -> number of requests written so far]
@@ -52,6 +53,8 @@ VARIABLES
   cpaused,  \* [client -> the client does not read: the kernel buffers towards it are full, writes to it park]
   obuf,     \* [client -> replies parked in the proxy's outbound buffer for it]
   npause,   \* times clients have stopped reading so far
+  ndown,    \* [node -> the node is off the network: a connect to it fails]
+  ndowns,   \* times nodes have gone off the network so far
   inq,      \* [client -> inMsgQueue: seq of message objects]
   msg,      \* [object -> Msg]
   frag,     \* [fid -> Frag]
@@ -76,12 +79,12 @@ VARIABLES
   out,      \* events emitted by the proxy during the current iteration (what an observer sees)
   sched     \* environment choices so far (for replay)
 
-vars == <<nsent, cbuf, cclosed, copen, closing, cpaused, obuf, npause, inq, msg, frag, outfq, infq, sopen, sgen, tasks, ttree,
+vars == <<nsent, cbuf, cclosed, copen, closing, cpaused, obuf, npause, ndown, ndowns, inq, msg, frag, outfq, infq, sopen, sgen, tasks, ttree,
           expired, bq, b2p, bclosed, nclose, hops, phase, ready, seen, efd, wcall, wread, halted, mon, out, sched>>
 
 \* sched is written, never read: the exhaustive runs hide it (VIEW) so that behaviours that differ only in
 \* the order of commuting environment choices are explored once
-view == <<nsent, cbuf, cclosed, copen, closing, cpaused, obuf, npause, inq, msg, frag, outfq, infq, sopen, sgen, tasks, ttree,
+view == <<nsent, cbuf, cclosed, copen, closing, cpaused, obuf, npause, ndown, ndowns, inq, msg, frag, outfq, infq, sopen, sgen, tasks, ttree,
           expired, bq, b2p, bclosed, nclose, hops, phase, ready, seen, efd, wcall, wread, halted, mon, out>>
 
 NoRid == <<"", 0>>
@@ -122,6 +125,7 @@ Init ==
   /\ cclosed = [c \in Clients |-> FALSE] /\ copen = [c \in Clients |-> TRUE]
   /\ closing = [c \in Clients |-> FALSE]
   /\ cpaused = [c \in Clients |-> FALSE] /\ obuf = [c \in Clients |-> <<>>] /\ npause = 0
+  /\ ndown = [n \in Nodes |-> FALSE] /\ ndowns = 0
   /\ inq = [c \in Clients |-> <<>>]
   /\ msg = [m \in 1..MaxMsg |-> FreshMsg]
   /\ frag = <<>>
@@ -149,7 +153,7 @@ CliSend(c, r) ==
      /\ cbuf' = [cbuf EXCEPT ![c] = Append(@, <<i, r>>)]
      /\ mon' = MonApply(mon, [Ev0 EXCEPT !.ev = "send", !.c = c, !.i = i, !.k = r.k, !.slots = r.slots])
      /\ sched' = Append(sched, [op |-> "send", c |-> c, n |-> "", req |-> r, kind |-> "", cls |-> "", to |-> ""])
-  /\ UNCHANGED <<cclosed, copen, closing, cpaused, obuf, npause, inq, msg, frag, outfq, infq, sopen, sgen, tasks, ttree, expired,
+  /\ UNCHANGED <<cclosed, copen, closing, cpaused, obuf, npause, ndown, ndowns, inq, msg, frag, outfq, infq, sopen, sgen, tasks, ttree, expired,
                  bq, b2p, bclosed, nclose, hops, phase, ready, seen, efd, wcall, wread, halted, out>>
 
 CliClose(c) ==
@@ -157,7 +161,7 @@ CliClose(c) ==
   /\ cclosed' = [cclosed EXCEPT ![c] = TRUE]
   /\ mon' = MonApply(mon, [Ev0 EXCEPT !.ev = "cclose", !.c = c])
   /\ sched' = Append(sched, [op |-> "cclose", c |-> c, n |-> "", req |-> [k |-> "", slots |-> <<>>], kind |-> "", cls |-> "", to |-> ""])
-  /\ UNCHANGED <<nsent, cbuf, copen, closing, cpaused, obuf, npause, inq, msg, frag, outfq, infq, sopen, sgen, tasks, ttree, expired,
+  /\ UNCHANGED <<nsent, cbuf, copen, closing, cpaused, obuf, npause, ndown, ndowns, inq, msg, frag, outfq, infq, sopen, sgen, tasks, ttree, expired,
                  bq, b2p, bclosed, nclose, hops, phase, ready, seen, efd, wcall, wread, halted, out>>
 
 \* a client stops reading (the kernel buffers towards it fill up: from now on what the proxy writes to it parks in the
@@ -167,13 +171,13 @@ CliPause(c) ==
   /\ cpaused' = [cpaused EXCEPT ![c] = TRUE] /\ npause' = npause + 1
   /\ mon' = MonApply(mon, [Ev0 EXCEPT !.ev = "pause", !.c = c])
   /\ sched' = Append(sched, [op |-> "pause", c |-> c, n |-> "", req |-> [k |-> "", slots |-> <<>>], kind |-> "", cls |-> "", to |-> ""])
-  /\ UNCHANGED <<nsent, cbuf, cclosed, copen, closing, obuf, inq, msg, frag, outfq, infq, sopen, sgen, tasks, ttree, expired,
+  /\ UNCHANGED <<nsent, cbuf, cclosed, copen, closing, obuf, ndown, ndowns, inq, msg, frag, outfq, infq, sopen, sgen, tasks, ttree, expired,
                  bq, b2p, bclosed, nclose, hops, phase, ready, seen, efd, wcall, wread, halted, out>>
 CliResume(c) ==
   /\ Env /\ cpaused[c]
   /\ cpaused' = [cpaused EXCEPT ![c] = FALSE]
   /\ sched' = Append(sched, [op |-> "resume", c |-> c, n |-> "", req |-> [k |-> "", slots |-> <<>>], kind |-> "", cls |-> "", to |-> ""])
-  /\ UNCHANGED <<nsent, cbuf, cclosed, copen, closing, obuf, npause, inq, msg, frag, outfq, infq, sopen, sgen, tasks, ttree, expired,
+  /\ UNCHANGED <<nsent, cbuf, cclosed, copen, closing, obuf, npause, ndown, ndowns, inq, msg, frag, outfq, infq, sopen, sgen, tasks, ttree, expired,
                  bq, b2p, bclosed, nclose, hops, phase, ready, seen, efd, wcall, wread, halted, mon, out>>
 
 \* what a node says about the keys of a fragment
@@ -209,7 +213,7 @@ BkAnswer(n, a) ==
                                         !.toks = FragToks(req, f, n, vals)]>>
                           \o [x \in DOMAIN rest[2] |-> [Ev0 EXCEPT !.ev = "answerauto", !.n = n, !.conn = Conn(n)]])
      /\ sched' = Append(sched, [op |-> "answer", c |-> "", n |-> n, req |-> [k |-> "", slots |-> <<>>], kind |-> kind, cls |-> cls, to |-> to])
-  /\ UNCHANGED <<nsent, cbuf, cclosed, copen, closing, cpaused, obuf, npause, inq, msg, frag, outfq, infq, sopen, sgen, tasks, ttree,
+  /\ UNCHANGED <<nsent, cbuf, cclosed, copen, closing, cpaused, obuf, npause, ndown, ndowns, inq, msg, frag, outfq, infq, sopen, sgen, tasks, ttree,
                  expired, bclosed, nclose, phase, ready, seen, efd, wcall, wread, halted, out>>
 
 BkClose(n) ==
@@ -219,8 +223,27 @@ BkClose(n) ==
   /\ bq' = [bq EXCEPT ![n] = <<>>]        \* unanswered commands die with the connection
   /\ mon' = MonApply(mon, [Ev0 EXCEPT !.ev = "bclose", !.n = n, !.conn = Conn(n)])
   /\ sched' = Append(sched, [op |-> "bclose", c |-> "", n |-> n, req |-> [k |-> "", slots |-> <<>>], kind |-> "", cls |-> "", to |-> ""])
-  /\ UNCHANGED <<nsent, cbuf, cclosed, copen, closing, cpaused, obuf, npause, inq, msg, frag, outfq, infq, sopen, sgen, tasks, ttree,
+  /\ UNCHANGED <<nsent, cbuf, cclosed, copen, closing, cpaused, obuf, npause, ndown, ndowns, inq, msg, frag, outfq, infq, sopen, sgen, tasks, ttree,
                  expired, b2p, hops, phase, ready, seen, efd, wcall, wread, halted, out>>
+
+\* a node goes off the network: its connection dies like in BkClose and, until it is back, a connect to it fails (the proxy
+\* then answers at once with its "unknown proxy pool conn" error: an environment fault, not something to hold against it)
+NodeDown(n) ==
+  /\ Env /\ ndowns < MaxDown /\ ~ndown[n]
+  /\ ndown' = [ndown EXCEPT ![n] = TRUE] /\ ndowns' = ndowns + 1
+  /\ IF sopen[n] /\ ~bclosed[n]
+     THEN /\ bclosed' = [bclosed EXCEPT ![n] = TRUE] /\ bq' = [bq EXCEPT ![n] = <<>>]
+          /\ mon' = MonApply(mon, [Ev0 EXCEPT !.ev = "bclose", !.n = n, !.conn = Conn(n)])
+     ELSE UNCHANGED <<bclosed, bq, mon>>
+  /\ sched' = Append(sched, [op |-> "ndown", c |-> "", n |-> n, req |-> [k |-> "", slots |-> <<>>], kind |-> "", cls |-> "", to |-> ""])
+  /\ UNCHANGED <<nsent, cbuf, cclosed, copen, closing, cpaused, obuf, npause, inq, msg, frag, outfq, infq, sopen, sgen, tasks, ttree,
+                 expired, b2p, nclose, hops, phase, ready, seen, efd, wcall, wread, halted, out>>
+NodeUp(n) ==
+  /\ Env /\ ndown[n]
+  /\ ndown' = [ndown EXCEPT ![n] = FALSE]
+  /\ sched' = Append(sched, [op |-> "nup", c |-> "", n |-> n, req |-> [k |-> "", slots |-> <<>>], kind |-> "", cls |-> "", to |-> ""])
+  /\ UNCHANGED <<nsent, cbuf, cclosed, copen, closing, cpaused, obuf, npause, ndowns, inq, msg, frag, outfq, infq, sopen, sgen, tasks, ttree,
+                 expired, bq, b2p, bclosed, nclose, hops, phase, ready, seen, efd, wcall, wread, halted, mon, out>>
 
 Writable(c)    == copen[c] /\ obuf[c] # <<>> /\ ~cpaused[c] /\ ~cclosed[c]     \* EPOLLOUT: the client reads again and output is parked
 ClientReady(c) == (copen[c] /\ (cbuf[c] # <<>> \/ cclosed[c])) \/ Writable(c)
@@ -240,7 +263,7 @@ Expire(w) ==
                                             !.slots = <<ttree[j][3]>>])
   /\ efd' = IF w THEN TRUE ELSE efd
   /\ sched' = Append(sched, [op |-> "expire", c |-> "", n |-> "", req |-> [k |-> "", slots |-> <<>>], kind |-> IF w THEN "wake" ELSE "", cls |-> "", to |-> ""])
-  /\ UNCHANGED <<nsent, cbuf, cclosed, copen, closing, cpaused, obuf, npause, inq, msg, frag, outfq, infq, sopen, sgen, tasks, ttree,
+  /\ UNCHANGED <<nsent, cbuf, cclosed, copen, closing, cpaused, obuf, npause, ndown, ndowns, inq, msg, frag, outfq, infq, sopen, sgen, tasks, ttree,
                  bq, b2p, bclosed, nclose, hops, phase, ready, seen, wcall, wread, halted, out>>
 
 \* something else signals the wake-up fd (in production the once-per-second probe; in the harness an explicit
@@ -248,7 +271,7 @@ Expire(w) ==
 Wake ==
   /\ Env /\ ~CanonKinds /\ ~efd
   /\ efd' = TRUE
-  /\ UNCHANGED <<nsent, cbuf, cclosed, copen, closing, cpaused, obuf, npause, inq, msg, frag, outfq, infq, sopen, sgen, tasks, ttree, expired,
+  /\ UNCHANGED <<nsent, cbuf, cclosed, copen, closing, cpaused, obuf, npause, ndown, ndowns, inq, msg, frag, outfq, infq, sopen, sgen, tasks, ttree, expired,
                  bq, b2p, bclosed, nclose, hops, phase, ready, seen, wcall, wread, halted, mon, out, sched>>
 
 -----------------------------------------------------------------------------
@@ -263,7 +286,7 @@ StartIter ==
   /\ seen' = <<>> /\ out' = <<>> /\ wread' = FALSE
   /\ phase' = "cb"
   /\ sched' = Append(sched, [op |-> "iter", c |-> "", n |-> "", req |-> [k |-> "", slots |-> <<>>], kind |-> "", cls |-> "", to |-> ""])
-  /\ UNCHANGED <<nsent, cbuf, cclosed, copen, closing, cpaused, obuf, npause, inq, msg, frag, outfq, infq, sopen, sgen, tasks, ttree,
+  /\ UNCHANGED <<nsent, cbuf, cclosed, copen, closing, cpaused, obuf, npause, ndown, ndowns, inq, msg, frag, outfq, infq, sopen, sgen, tasks, ttree,
                  expired, bq, b2p, bclosed, nclose, hops, efd, wcall, halted, mon>>
 
 \* the wake-up fd's turn among this iteration's events: read it; the task queue will run after the callbacks
@@ -272,7 +295,7 @@ ReadWake ==
   /\ ready' = ready \ {<<"W", "">>}
   /\ efd' = FALSE /\ wread' = TRUE
   /\ seen' = Append(seen, <<"W", "", 0>>)
-  /\ UNCHANGED <<nsent, cbuf, cclosed, copen, closing, cpaused, obuf, npause, inq, msg, frag, outfq, infq, sopen, sgen, tasks, ttree,
+  /\ UNCHANGED <<nsent, cbuf, cclosed, copen, closing, cpaused, obuf, npause, ndown, ndowns, inq, msg, frag, outfq, infq, sopen, sgen, tasks, ttree,
                  expired, bq, b2p, bclosed, nclose, hops, phase, wcall, halted, mon, out, sched>>
 
 \* ---- MsgPool (sync.Pool): Get returns any pooled object or a new one
@@ -355,6 +378,10 @@ Route(order, c, i, m, st) ==
   IF order = <<>> THEN st
   ELSE LET s == Head(order) n == SlotNode[s] f == <<c, i, s>> IN
        IF n = "none" THEN [st EXCEPT !.ok = FALSE]
+       ELSE IF ~st.h.sopen[n] /\ ndown[n] THEN
+         \* Pool.Get: the connect is refused: the request is answered with the pool's error
+         [st EXCEPT !.ok = FALSE, !.txt = "unknown proxy pool conn",
+                    !.h = Emit(@, [Ev0 EXCEPT !.ev = "envfault", !.n = n])]
        ELSE Route(Tail(order), c, i, m,
                   [st EXCEPT !.h = Enqueue(@, n, f),
                              !.h.frag = (f :> [peer |-> m, owner |-> c, done |-> FALSE, ans |-> NoAns]) @@ @])
@@ -372,13 +399,13 @@ FragOrders(S) ==
 \* OnCReact for a forwarded request whose fragments are visited in the given order (an operator with
 \* arguments on purpose: TLC must not share its value between different orders)
 Forward(c, i, m, m0, h0, order) ==
-  LET res == Route(order, c, i, m, [ok |-> TRUE, h |-> h0])
+  LET res == Route(order, c, i, m, [ok |-> TRUE, h |-> h0, txt |-> "unknown slot"])
       h1 == res.h
   IN IF res.ok THEN [h1 EXCEPT !.inq[c] = Append(@, m)]
      ELSE \* rejected after some fragments may already be queued: mark them done
        LET h1a == [h1 EXCEPT !.frag = [g \in DOMAIN h1.frag |->
                                          IF g \in m0.frs THEN [h1.frag[g] EXCEPT !.done = TRUE] ELSE h1.frag[g]]]
-           urep == PErr("unknown slot")
+           urep == PErr(res.txt)
        IN IF h1a.inq[c] = <<>>
           THEN Write([h1a EXCEPT !.msg[m] = PutReset(m0)], c, urep)
           ELSE [h1a EXCEPT !.msg[m] = [m0 EXCEPT !.done = TRUE, !.rsp = urep], !.inq[c] = Append(@, m)]
@@ -390,7 +417,7 @@ CbClientWrite(c) ==
   /\ LET h1 == [Heap EXCEPT !.obuf[c] = <<>>, !.evs = GotEvs(c, obuf[c])] IN SetHeap(CloseQuit(h1, c))
   /\ seen' = IF <<"c", c, 0>> \in SeqRange(seen) THEN seen ELSE Append(seen, <<"c", c, 0>>)
   /\ ready' = IF copen'[c] /\ (cbuf[c] # <<>> \/ cclosed[c]) THEN ready ELSE ready \ {<<"c", c>>}
-  /\ UNCHANGED <<nsent, cpaused, npause, cbuf, cclosed, expired, nclose, hops, phase, wread, halted, sched>>
+  /\ UNCHANGED <<nsent, cpaused, npause, ndown, ndowns, cbuf, cclosed, expired, nclose, hops, phase, wread, halted, sched>>
 
 CbClientReadOne(c) ==
   /\ phase = "cb" /\ <<"c", c>> \in ready /\ ~Writable(c)
@@ -399,7 +426,7 @@ CbClientReadOne(c) ==
        /\ cbuf' = [cbuf EXCEPT ![c] = <<>>]
        /\ ready' = ready \ {<<"c", c>>}
        /\ seen' = IF <<"c", c, 0>> \in SeqRange(seen) THEN seen ELSE Append(seen, <<"c", c, 0>>)
-       /\ UNCHANGED <<copen, closing, cpaused, obuf, npause, inq, msg, frag, outfq, infq, sopen, sgen, tasks, ttree, bq, b2p, bclosed, efd, wcall, mon, out>>
+       /\ UNCHANGED <<copen, closing, cpaused, obuf, npause, ndown, ndowns, inq, msg, frag, outfq, infq, sopen, sgen, tasks, ttree, bq, b2p, bclosed, efd, wcall, mon, out>>
      ELSE IF cbuf[c] # <<>> THEN
        LET i == Head(cbuf[c])[1]
            r == Head(cbuf[c])[2]
@@ -437,7 +464,7 @@ CbClientReadOne(c) ==
        /\ ready' = ready \ {<<"c", c>>}
        /\ seen' = IF <<"c", c, 0>> \in SeqRange(seen) THEN seen ELSE Append(seen, <<"c", c, 0>>)
        /\ UNCHANGED cbuf
-  /\ UNCHANGED <<nsent, cpaused, npause, cclosed, expired, nclose, hops, phase, wread, halted, sched>>
+  /\ UNCHANGED <<nsent, cpaused, npause, ndown, ndowns, cclosed, expired, nclose, hops, phase, wread, halted, sched>>
 
 \* A write to a client that has already closed its end can fail (EPIPE / ECONNRESET, depending on when the
 \* kernel saw the reset): closeConn(c) then runs in the middle of cread and the rest of what was read is
@@ -448,7 +475,7 @@ ClientAbort(c) ==
   /\ cbuf' = [cbuf EXCEPT ![c] = <<>>]
   /\ ready' = ready \ {<<"c", c>>}
   /\ seen' = IF <<"c", c, 0>> \in SeqRange(seen) THEN seen ELSE Append(seen, <<"c", c, 0>>)
-  /\ UNCHANGED <<nsent, cpaused, npause, cclosed, expired, nclose, hops, phase, wread, halted, sched>>
+  /\ UNCHANGED <<nsent, cpaused, npause, ndown, ndowns, cclosed, expired, nclose, hops, phase, wread, halted, sched>>
 
 -----------------------------------------------------------------------------
 RemoveFrom(seq, x) == SelectSeq(seq, LAMBDA e : e # x)
@@ -522,6 +549,8 @@ CbServerReadOne(n) ==
           ELSE IF a.kind \in {"moved", "ask"} THEN
             \* OnMoved: re-queue on the named node, ASKING first for ASK; unknown node: fail the request
             IF a.to \notin Nodes THEN SetHeap(FailFrag(h0, f, "unknown proxy pool"))
+            ELSE IF ~h0.sopen[a.to] /\ ndown[a.to] THEN
+              SetHeap(FailFrag(Emit(h0, [Ev0 EXCEPT !.ev = "envfault", !.n = a.to]), f, "unknown proxy pool conn"))
             ELSE LET h1 == IF a.kind = "ask" THEN Enqueue(h0, a.to, Asking) ELSE h0 IN
                  SetHeap(Enqueue(h1, a.to, f))
           ELSE
@@ -542,12 +571,12 @@ CbServerReadOne(n) ==
           IN SetHeap(h2)
        /\ ready' = ready \ {<<"s", n>>}
   /\ seen' = IF <<"s", n, sgen[n]>> \in SeqRange(seen) THEN seen ELSE Append(seen, <<"s", n, sgen[n]>>)
-  /\ UNCHANGED <<nsent, cpaused, npause, cbuf, cclosed, expired, nclose, hops, phase, wread, halted, sched>>
+  /\ UNCHANGED <<nsent, cpaused, npause, ndown, ndowns, cbuf, cclosed, expired, nclose, hops, phase, wread, halted, sched>>
 
 EndCallbacks ==
   /\ phase = "cb" /\ ready = {}
   /\ phase' = IF wread THEN "tasks" ELSE "tmo"
-  /\ UNCHANGED <<nsent, cbuf, cclosed, copen, closing, cpaused, obuf, npause, inq, msg, frag, outfq, infq, sopen, sgen, tasks, ttree,
+  /\ UNCHANGED <<nsent, cbuf, cclosed, copen, closing, cpaused, obuf, npause, ndown, ndowns, inq, msg, frag, outfq, infq, sopen, sgen, tasks, ttree,
                  expired, bq, b2p, bclosed, nclose, hops, ready, seen, efd, wcall, wread, halted, mon, out, sched>>
 
 \* the task queue: write signals (tasks triggered while the queue is being run are run in the same batch)
@@ -588,7 +617,7 @@ RunTasks ==
      \* redirect) is no longer expired
      /\ expired' = expired \ (SeqRange(h.ttree) \ SeqRange(ttree))
   /\ phase' = "tmo" /\ wread' = FALSE
-  /\ UNCHANGED <<nsent, cpaused, npause, cbuf, cclosed, nclose, hops, ready, seen, halted, sched>>
+  /\ UNCHANGED <<nsent, cpaused, npause, ndown, ndowns, cbuf, cclosed, nclose, hops, ready, seen, halted, sched>>
 
 \* msgTimeout: scan the tree from the earliest deadline
 RECURSIVE Scan(_)
@@ -618,7 +647,7 @@ TimeoutScan ==
                         [Ev0 EXCEPT !.ev = "iter", !.seen = [j \in DOMAIN seen |-> IF seen[j][1] = "s" THEN [k |-> "s", n |-> <<seen[j][2], seen[j][3]>>]
                                                                         ELSE [k |-> seen[j][1], n |-> seen[j][2]]]])
   /\ phase' = "poll"
-  /\ UNCHANGED <<nsent, cpaused, npause, cbuf, cclosed, expired, nclose, hops, ready, seen, wread, halted, sched>>
+  /\ UNCHANGED <<nsent, cpaused, npause, ndown, ndowns, cbuf, cclosed, expired, nclose, hops, ready, seen, wread, halted, sched>>
 
 \* the scenario ends once nothing can happen inside the proxy; the observer then concludes absence
 Quiesce ==
@@ -626,7 +655,7 @@ Quiesce ==
   /\ \A c \in Clients : ~cpaused[c]          \* (a client that has stopped reading starts again before the scenario ends)
   /\ halted' = TRUE
   /\ mon' = MonApply(mon, [Ev0 EXCEPT !.ev = "quiesce"])
-  /\ UNCHANGED <<nsent, cbuf, cclosed, copen, closing, cpaused, obuf, npause, inq, msg, frag, outfq, infq, sopen, sgen, tasks, ttree,
+  /\ UNCHANGED <<nsent, cbuf, cclosed, copen, closing, cpaused, obuf, npause, ndown, ndowns, inq, msg, frag, outfq, infq, sopen, sgen, tasks, ttree,
                  expired, bq, b2p, bclosed, nclose, hops, phase, ready, seen, efd, wcall, wread, out, sched>>
 
 Next ==
@@ -636,6 +665,7 @@ Next ==
   \/ \E c \in Clients : CbClientWrite(c)
   \/ \E n \in Nodes, a \in AnswerKinds : BkAnswer(n, a)
   \/ \E n \in Nodes : BkClose(n)
+  \/ \E n \in Nodes : NodeDown(n) \/ NodeUp(n)
   \/ \E w \in BOOLEAN : Expire(w)
   \/ Wake
   \/ StartIter
